@@ -49,6 +49,11 @@ enum Op {
     Close {
         conn: usize,
     },
+    /// the receiver of the idx-th offer ever forwarded in this history answers it now (resolved at run time:
+    /// recipients are chosen at random by the tracker); the model decides whether it is still outstanding
+    AnswerForward {
+        idx: usize,
+    },
     Clean {
         advance: u32,
     },
@@ -141,6 +146,13 @@ struct LiveConn {
 }
 
 fn run_history(h: &History, shape: &mut Shape) -> Result<u64, Fail> {
+    match catch_unwind(AssertUnwindSafe(|| run_history_inner(h, shape))) {
+        Ok(r) => r,
+        Err(p) => Err(Fail { op_index: h.ops.len().saturating_sub(1), clause: "panic", signature: format!("ws.swarm.panic:{}", panic_text(&*p)), detail: format!("the tracker code panicked during this history: {}", panic_text(&*p)) }),
+    }
+}
+
+fn run_history_inner(h: &History, shape: &mut Shape) -> Result<u64, Fail> {
     let mut config = Config::default();
     config.protocol.max_offers = h.max_offers;
     config.protocol.max_scrape_torrents = h.max_scrape_torrents;
@@ -187,10 +199,41 @@ fn run_history(h: &History, shape: &mut Shape) -> Result<u64, Fail> {
     let mut ops_done = 0u64;
     // what a socket worker records per connection: torrent -> peer id it announced (also ids of other connections it tried to use)
     let mut recorded: Vec<BTreeMap<usize, usize>> = vec![BTreeMap::new(); h.conns.len()];
+    // every forward observed so far: (torrent index, offerer pid index, receiver peer id, offer id index)
+    let mut forwards_seen: Vec<(usize, usize, [u8; 20], usize)> = Vec::new();
     for (i, op) in h.ops.iter().enumerate() {
         let fail = |clause: &'static str, signature: &str, detail: String| Fail { op_index: i, clause, signature: signature.to_string(), detail };
         aquatic_common::verif::set_clock(Some(clock));
+        // resolve an AnswerForward into the announce its receiver would send now
+        let resolved: Op;
+        let op = match op {
+            Op::AnswerForward { idx } => {
+                if forwards_seen.is_empty() {
+                    ops_done += 1;
+                    continue;
+                }
+                let (t, offerer_pid, receiver, oid) = forwards_seen[*idx % forwards_seen.len()];
+                let hash = h20(0xA0, t);
+                let found = [Fam::V4, Fam::V6].iter().find_map(|fam| model.entry(*fam, &hash, &receiver).map(|e| (e.owner, e.seeder)));
+                let rpid = (0..h.n_pids).find(|k| h20(0xB0, *k) == receiver);
+                let ci = found.and_then(|(owner, _)| live.iter().position(|l| l.conn == owner));
+                match (found, rpid, ci) {
+                    (Some((_, seeder)), Some(k), Some(ci)) => {
+                        shape.cnt("answers_to_recorded_forwards");
+                        resolved = Op::Announce { conn: ci, t, pid: k, event: 0, left: if seeder { 1 } else { 2 }, offers: None, answer: Some((offerer_pid, oid)) };
+                        &resolved
+                    }
+                    _ => {
+                        // the receiver is gone: nothing to send
+                        ops_done += 1;
+                        continue;
+                    }
+                }
+            }
+            other => other,
+        };
         match op {
+            Op::AnswerForward { .. } => unreachable!(),
             Op::Announce { conn, t, pid, event, left, offers, answer } => {
                 let ci = *conn % live.len();
                 let v6 = h.conns[ci].1;
@@ -317,6 +360,9 @@ fn run_history(h: &History, shape: &mut Shape) -> Result<u64, Fail> {
                             used.insert(r);
                             let oid = offer_list.as_ref().unwrap()[*idx].offer_id.0;
                             model.record_forward(fam, hash, peer, r, oid, clock as u64 + h.max_offer_age as u64);
+                            if let Some(o) = offers.as_ref() {
+                                forwards_seen.push((*t, *pid, r, o[*idx]));
+                            }
                         }
                         if offers_expected > 0 {
                             shape.ev(6);
@@ -561,7 +607,52 @@ fn run_history(h: &History, shape: &mut Shape) -> Result<u64, Fail> {
     Ok(ops_done)
 }
 
+/// Offer-aging focus: a handful of long-lived peers on one torrent, short offer ages, and a dense mix of
+/// offers (small id pool, so ids repeat and refresh), answers to recorded forwards and cleaning passes that
+/// advance the clock by 0-2 seconds: outstanding offers of different ages, answered and refreshed in every order.
+fn gen_offer_aging_history(rng: &mut SplitMix) -> History {
+    let n_conns = 3 + rng.usize(3);
+    let conns: Vec<(u8, bool)> = (0..n_conns).map(|i| ((i % 2) as u8, false)).collect();
+    let max_offer_age = *rng.pick(&[2u32, 3, 3, 4, 6]);
+    let mut ops = Vec::new();
+    for c in 0..n_conns {
+        ops.push(Op::Announce { conn: c, t: 0, pid: c, event: 1, left: 2, offers: None, answer: None });
+    }
+    let n_oids = 3 + rng.usize(3);
+    let n_ops = 15 + rng.usize(30);
+    for _ in 0..n_ops {
+        match rng.below(10) {
+            0..=3 => {
+                let c = rng.usize(n_conns.min(2)); // one or two offerers
+                let k = 1 + rng.usize(3);
+                ops.push(Op::Announce { conn: c, t: 0, pid: c, event: 0, left: 2, offers: Some((0..k).map(|_| rng.usize(n_oids)).collect()), answer: None });
+            }
+            4..=6 => ops.push(Op::AnswerForward { idx: rng.usize(64) }),
+            7..=8 => ops.push(Op::Clean { advance: rng.below(3) as u32 }),
+            _ => ops.push(Op::Clean { advance: max_offer_age - 1 }),
+        }
+    }
+    History {
+        max_offers: 10,
+        max_scrape_torrents: 10,
+        max_peer_age: 100_000,
+        max_offer_age,
+        start_clock: rng.below(100) as u32,
+        mode: 0,
+        initial_list: vec![],
+        n_torrents: 1,
+        n_pids: n_conns,
+        n_oids,
+        conns,
+        rng_seed: rng.next(),
+        ops,
+    }
+}
+
 fn gen_history(rng: &mut SplitMix, focus: &str) -> History {
+    if matches!(focus, "C09" | "C10" | "") && rng.chance(1, 4) {
+        return gen_offer_aging_history(rng);
+    }
     let n_torrents = 1 + rng.usize(3);
     let n_conns = 2 + rng.usize(5);
     let both_fams = rng.chance(1, 3);
@@ -608,10 +699,12 @@ fn gen_history(rng: &mut SplitMix, focus: &str) -> History {
                 }
             }
             ops.push(Op::Announce { conn, t, pid, event, left: rng.below(3) as u8, offers, answer });
-        } else if r < 72 {
+        } else if r < 68 {
             let ts = if rng.chance(1, 10) { None } else { Some((0..(1 + rng.usize(4))).map(|_| rng.usize(n_torrents + 2)).collect()) };
             ops.push(Op::Scrape { conn: rng.usize(n_conns), ts, single: rng.chance(1, 2) });
-        } else if r < 80 {
+        } else if r < 78 {
+            ops.push(Op::AnswerForward { idx: rng.usize(64) });
+        } else if r < 83 {
             let conn = rng.usize(n_conns);
             conn_pid.retain(|k, _| k.0 != conn);
             ops.push(Op::Close { conn });
@@ -739,6 +832,9 @@ fn gen_sweep(index: u64) -> Option<History> {
 }
 
 fn relevant(property: &str, clause: &str) -> bool {
+    if clause == "panic" {
+        return true;
+    }
     match property {
         "C08" => matches!(clause, "counts" | "ownership" | "membership" | "scrape" | "reply" | "routing" | "panic"),
         "C09" => matches!(clause, "offers" | "answers" | "routing"),
